@@ -372,7 +372,11 @@ def search(ctx):
                                 ctx.violation("C16:average-saved", "an image returned by load_average changes through HDF5 save/load (values, axes or noise level)", dict(info, kind="average-saved", colour=bool(colour)))
                     # averaging onto a reference image that is a region of the frame (a cropped hologram keeps its coordinates)
                     if not colour and nx >= 3 and ny >= 3:
-                        full = load_image(paths[0], spacing=spx)
+                        # the reference may carry its own (stale) noise level and optics, as an image that went through
+                        # load_image(noise_sd=...), bg_correct or an earlier load_average does: the noise of the result is
+                        # measured from the averaged frames, the optics come from the reference
+                        ref_noise = [None, 0.25, 0.0213][i % 3]
+                        full = load_image(paths[0], spacing=spx, noise_sd=ref_noise, medium_index=1.33, illum_wavelen=0.66)
                         # at least two pixels per axis: the spacing is read off the reference image
                         a0, c0 = int(rng.integers(0, nx - 1)), int(rng.integers(0, ny - 1))
                         a1, c1 = int(rng.integers(a0 + 2, nx + 1)), int(rng.integers(c0 + 2, ny + 1))
@@ -387,8 +391,14 @@ def search(ctx):
                         wnr = (stack.std(0)[a0:a1, c0:c1] / want_roi).mean()
                         nr = float(np.ravel(avr.noise_sd)[0]) if np.ndim(avr.noise_sd) else float(avr.noise_sd)
                         if np.isfinite(wnr) and not (abs(nr - wnr) <= 1e-8):
-                            ctx.violation("C16:average-roi-noise", "relative noise of the region [%d:%d, %d:%d] is %r, expected %r" % (a0, a1, c0, c1, nr, wnr),
-                                          dict(info, kind="average-roi", region=[a0, a1, c0, c1]))
+                            ctx.violation("C16:average-roi-noise" + (":reference-has-noise" if ref_noise is not None else ""),
+                                          "relative noise of the region [%d:%d, %d:%d] averaged onto a reference image with noise_sd %r is %r, expected %r" % (a0, a1, c0, c1, ref_noise, nr, wnr),
+                                          dict(info, kind="average-roi", region=[a0, a1, c0, c1], ref_noise=ref_noise))
+                        if avr.attrs.get("medium_index") != 1.33 or avr.attrs.get("illum_wavelen") != 0.66:
+                            ctx.violation("C16:average-roi-optics", "load_average onto a reference image does not take the reference's optics", dict(info, kind="average-roi", region=[a0, a1, c0, c1]))
+                        avx = load_average(paths, refimg=roi, noise_sd=0.5)
+                        if float(np.ravel(avx.noise_sd)[0]) != 0.5:
+                            ctx.violation("C16:average-roi-explicit-noise", "an explicit noise_sd given to load_average is not the result's", dict(info, kind="average-roi", region=[a0, a1, c0, c1]))
             except Exception as ex:
                 import traceback
                 ctx.violation("C16:raises:%s" % type(ex).__name__, "image I/O raised %r" % (ex,), dict(kind="raises", tb=traceback.format_exc()[-800:]))
